@@ -92,6 +92,10 @@ structure Cfg where
   /-- repaired `remove_entry` (see /verif/work/C11-fix-mid.diff): removing an entry that has pooled
       ancestors and pooled descendants rebuilds both sides from the links -/
   fixMid : Bool := false
+  /-- repaired `check_and_record_ancestors` (/repo 10e306f, F33): a cell-ref parent whose output the new
+      entry itself spends or references is not a candidate of the ancestor-limit eviction (and does not
+      count towards "the limit can be met by evicting"); `false` = the code as it was before -/
+  fixF33 : Bool := false
 deriving Repr, Inhabited
 
 structure Pool where
@@ -313,9 +317,16 @@ inductive AddRes where
   | panic
 deriving DecidableEq, Repr
 
-/-- `get_tx_ancenstors`: (ancestors, parents, cell_ref_parents) -/
+/-- the pooled transactions whose outputs the new transaction spends or references
+    (`needed` in the /repo 10e306f repair of `check_and_record_ancestors`) -/
+def neededIds (t : Tx) : List Nat := (t.inputs ++ t.deps).map (·.tx)
+
+/-- `get_tx_ancenstors`: (ancestors, parents, cell_ref_parents), followed — under `fixF33` — by the
+    first step of the repaired `check_and_record_ancestors`, which drops the needed transactions from
+    `cell_ref_parents` before anything looks at that set -/
 def txAncestors (s : Pool) (t : Tx) : List Nat × List Nat × List Nat :=
-  let cellRef := dedup (t.inputs.flatMap (depUsers s))
+  let cellRef0 := dedup (t.inputs.flatMap (depUsers s))
+  let cellRef := if s.cfg.fixF33 then cellRef0.filter (fun id => !(neededIds t).contains id) else cellRef0
   let viaInputs := t.inputs.flatMap fun i => depUsers s i ++ (if hasLink s.links i.tx then [i.tx] else [])
   let viaDeps := t.deps.filterMap fun d => if hasLink s.links d.tx then some d.tx else none
   let parents := dedup (viaInputs ++ viaDeps)
